@@ -65,6 +65,9 @@ func c12(c *Ctx) {
 			ctx.Attributes(attr.NOSPLIT)
 			ctx.SignatureExpr(fi.sig)
 			if rng.Chance(60) {
+				if rng.Chance(35) { // Doc sets the documentation: a later call replaces an earlier one
+					ctx.Doc("placeholder text.", "", "Deprecated: replaced below.")
+				}
 				fi.doc = Pick(rng, stubDocs)
 				ctx.Doc(fi.doc...)
 			}
@@ -138,8 +141,10 @@ func c12(c *Ctx) {
 			}
 		}
 		requested := map[string][][]string{}
+		requestedDoc := map[string][]string{}
 		for _, fi := range fns {
 			requested[fi.name] = fi.prag
+			requestedDoc[fi.name] = fi.doc
 		}
 		for _, fn := range fnSecs {
 			var ps []string
@@ -153,7 +158,11 @@ func c12(c *Ctx) {
 					ps = append(ps, cPair(cStr(p.Directive), cStrs(p.Arguments)))
 				}
 			}
-			sfs = append(sfs, fmt.Sprintf("{| sf_name := %s; sf_doc := %s; sf_pragmas := %s; sf_sig := %s |}", cStr(fn.Name), cStrs(fn.Doc), cList(ps), cStr(fn.Signature.String())))
+			docLines := fn.Doc
+			if _, mine := requested[fn.Name]; mine {
+				docLines = requestedDoc[fn.Name] // as given to Context.Doc, not as the function stores it
+			}
+			sfs = append(sfs, fmt.Sprintf("{| sf_name := %s; sf_doc := %s; sf_pragmas := %s; sf_sig := %s |}", cStr(fn.Name), cStrs(docLines), cList(ps), cStr(fn.Signature.String())))
 		}
 		model := fmt.Sprintf("{| st_warning := %s; st_constraints := %s; st_pkg := %s; st_funcs := %s |}", cStr(cfg.GeneratedWarning()), cStr(cons), cStr(cfg.Pkg), cList(sfs))
 		// observation: parse the stub with go/parser
